@@ -1468,6 +1468,11 @@ class Interp:
         raise Fail(f'call of {f!r} line {getattr(n, "lineno", "?")}')
 
     def opaque_call(self, f, args, kw, n):
+        for a in list(args) + list(kw.values()):
+            if getattr(a, 'typestate', False):
+                # a slice whose reads are being checked against a schema is handed to code the interpreter cannot follow: whatever it would
+                # consume is unknown - an analysis error, never a silent "nothing was read"
+                raise Fail(f'a typestate slice is passed to a callable the interpreter cannot follow: {vrepr(f)[:60]}')
         return Term('call', f, *args)
 
     def construct(self, cls, args, kw, n=None):
